@@ -25,7 +25,7 @@ partial def mkTy (j : Json) : Ty :=
     | some t => .tuple (mkTy t)
     | none =>
     match obj? j "dict" with
-    | some t => .dict (if str! (fld j "key") == "int" then .int else .str) (mkTy t)
+    | some t => .dict (if str! (fld j "key") == "int" then .int else if str! (fld j "key") == "any" then .any else .str) (mkTy t)
     | none =>
     match obj? j "union" with
     | some ts => .union ((arr! ts).map mkTy)
@@ -34,6 +34,9 @@ partial def mkTy (j : Json) : Ty :=
 def mkKey (j : Json) : Key :=
   match j with
   | .str s => .str s
+  | .null => .other 0
+  | .bool false => .other 1
+  | .bool true => .other 2
   | _ => .int (int! j)
 
 partial def mkVal (j : Json) : Val :=
@@ -64,6 +67,9 @@ def mkClass (j : Json) : ClassDecl :=
 def keyJ : Key → Json
   | .str s => Json.str s
   | .int i => Json.num i
+  | .other 0 => Json.null
+  | .other 1 => Json.bool false
+  | .other _ => Json.bool true
 
 partial def resJ : Res → Json
   | .leaf n => Json.mkObj [("x", Json.num n)]
